@@ -591,6 +591,19 @@ type InlineNums struct {
 	F64  map[string]float64 `struct:",inline"`
 }
 
+// PtrShaped is a struct that consists of one pointer: Go keeps such a value
+// DIRECTLY in an interface word (it is "pointer-shaped"), unlike other structs.
+// FolderOpts(3) registers a user-defined folder for it.
+type PtrShaped struct{ P *int }
+
+type HasPtrShaped struct {
+	Name string
+	S    PtrShaped
+	L    []PtrShaped
+	M    map[string]PtrShaped
+	I    interface{}
+}
+
 // Empty has size zero: slices of it have elements without extent.
 type Empty struct{}
 
@@ -981,6 +994,12 @@ func FolderOpts(v int) []gotype.FoldOption {
 					return vs.OnNil()
 				}
 				return vs.OnInt64(int64(*s) * 2)
+			},
+			func(p *PtrShaped, vs structform.ExtVisitor) error {
+				if p == nil || p.P == nil {
+					return vs.OnNil()
+				}
+				return vs.OnInt(*p.P)
 			})}
 	}
 	return nil
@@ -1741,6 +1760,15 @@ var Catalogue = []TypeEntry{
 		}
 		return out
 	})),
+	foldOnly(mk("PtrShaped", false, func(c *simkit.Choices) PtrShaped { n := c.N(1000); return PtrShaped{P: &n} })),
+	foldOnly(mk("HasPtrShaped", true, func(c *simkit.Choices) HasPtrShaped {
+		n, m := c.N(1000), c.N(1000)
+		h := HasPtrShaped{Name: genStr(c), S: PtrShaped{P: &n}, L: []PtrShaped{{P: &m}, {}}, M: map[string]PtrShaped{"k": {P: &n}}}
+		if c.Bool() {
+			h.I = PtrShaped{P: &m}
+		}
+		return h
+	})),
 	foldOnly(mk("Opts", false, func(c *simkit.Choices) Opts {
 		o := Opts{A: OptInt{Set: c.Bool(), V: c.N(1000)}, B: OptInt{Set: c.Bool(), V: c.N(1000)}, N: c.N(10)}
 		if c.Bool() {
@@ -1955,7 +1983,7 @@ var families = map[string][]string{
 	"wrap":   {"WrapPtr", "WrapMap", "WrapStr", "Wrap3", "[]WrapPtr", "map[string]WrapStr", "Ptrs"},
 	"inner":  {"Inner", "Holder", "Nested", "Tagged", "[]*Inner", "Wide", "[]Wide", "OmitAll", "Ptrs", "Inline2", "TwoMaps"},
 	"named":  {"NamedSlice", "NamedMap", "NamedFields", "[]NamedSlice", "[]int", "map[string]string"},
-	"score":  {"Score", "[]Score", "map[string]Score", "Scored", "int"},
+	"score":  {"PtrShaped", "HasPtrShaped", "Score", "[]Score", "map[string]Score", "Scored", "int"},
 	"packed": {"PackedU8", "PackedI8", "PackedBool", "PackedU16", "PackedI16", "PackedU32", "PackedI32", "PackedF32", "PackedMix"},
 	"simple": {"Simple", "[]Simple", "map[string]Simple", "*Simple", "Nested", "map[MyStr]Simple", "Wide", "Embeds"},
 	"colls":  {"Colls", "Nest2", "NamedPrims", "[]int16", "map[string]uint16", "[][]string"},
